@@ -27,6 +27,8 @@ pub struct Report {
     pub harness_errors: Vec<String>,
     pub exhaustive: Option<bool>,
     pub notes: Vec<String>,
+    /// raw value series (merged by concatenation) for quantile-based verdicts
+    pub series: BTreeMap<String, Vec<f64>>,
 }
 
 impl Report {
@@ -45,6 +47,7 @@ impl Report {
             harness_errors: Vec::new(),
             exhaustive: None,
             notes: Vec::new(),
+            series: BTreeMap::new(),
         }
     }
     pub fn eval(&mut self) {
@@ -67,6 +70,19 @@ impl Report {
         if v > *e {
             *e = v;
         }
+    }
+    pub fn push(&mut self, k: &str, v: f64) {
+        self.series.entry(k.to_string()).or_default().push(v);
+    }
+    pub fn quantile(&self, k: &str, q: f64) -> Option<f64> {
+        let v = self.series.get(k)?;
+        if v.is_empty() {
+            return None;
+        }
+        let mut w: Vec<f64> = v.iter().cloned().filter(|x| !x.is_nan()).collect();
+        w.sort_by(|a, b| a.partial_cmp(b).unwrap());
+        let idx = ((w.len() - 1) as f64 * q).round() as usize;
+        Some(w[idx])
     }
     pub fn nontrivial(&mut self, h: u64) {
         self.nontrivial.insert(h);
@@ -135,6 +151,9 @@ impl Report {
             self.exhaustive = Some(self.exhaustive.unwrap_or(true) && e);
         }
         self.notes.extend(o.notes);
+        for (k, v) in o.series {
+            self.series.entry(k).or_default().extend(v);
+        }
     }
     pub fn observed_json(&self) -> Value {
         let mut m = serde_json::Map::new();
